@@ -268,19 +268,81 @@ func (m *parserModel) effects() []effect {
 		}
 	})
 	// cursor moves: phi edges of the cursor phi that carry a different node
-	if m.cursorPhi != nil {
-		for i, e := range m.cursorPhi.Edges {
+	for _, mv := range m.cursorMoves() {
+		out = append(out, effect{effCursorMove, mv.pred.Instrs[len(mv.pred.Instrs)-1], nil})
+	}
+	return out
+}
+
+// cursorMove: the cursor takes the value val on the edge leaving block pred.
+type cursorMove struct {
+	pred *ssa.BasicBlock
+	val  ssa.Value
+}
+
+// cursorMoves lists the sites where the cursor is given another node. The cursor is the phi at the head of the
+// main loop; intermediate phis that merely merge "cursor unchanged" with a new node (a flag + break out of the
+// command scan instead of a labelled continue, for instance) are looked through, and a site reached through several
+// such merges counts once.
+func (m *parserModel) cursorMoves() []cursorMove {
+	var out []cursorMove
+	if m.cursorPhi == nil {
+		return nil
+	}
+	seenMove := map[[2]interface{}]bool{}
+	seenPhi := map[*ssa.Phi]bool{m.cursorPhi: true}
+	var expand func(phi *ssa.Phi)
+	expand = func(phi *ssa.Phi) {
+		for i, e := range phi.Edges {
+			pred := phi.Block().Preds[i]
 			if e == ssa.Value(m.cursorPhi) {
 				continue
 			}
-			pred := m.cursorPhi.Block().Preds[i]
 			if p, ok := e.(*ssa.Parameter); ok && p.Parent() == m.fn {
 				continue // initialisation from the tree parameter
 			}
-			out = append(out, effect{effCursorMove, pred.Instrs[len(pred.Instrs)-1], nil})
+			if inner, ok := e.(*ssa.Phi); ok && m.isCursorMerge(inner, map[*ssa.Phi]bool{}) {
+				if !seenPhi[inner] {
+					seenPhi[inner] = true
+					expand(inner)
+				}
+				continue
+			}
+			k := [2]interface{}{pred, e}
+			if !seenMove[k] {
+				seenMove[k] = true
+				out = append(out, cursorMove{pred, e})
+			}
 		}
 	}
+	expand(m.cursorPhi)
 	return out
+}
+
+// isCursorMerge: phi (not the cursor itself) has the cursor, or another such merge, among its operands.
+func (m *parserModel) isCursorMerge(phi *ssa.Phi, seen map[*ssa.Phi]bool) bool {
+	if phi == m.cursorPhi || seen[phi] {
+		return false
+	}
+	seen[phi] = true
+	for _, e := range phi.Edges {
+		if e == ssa.Value(m.cursorPhi) {
+			return true
+		}
+		if p2, ok := e.(*ssa.Phi); ok && m.isCursorMerge(p2, seen) {
+			return true
+		}
+	}
+	return false
+}
+
+// isCursorValue: v is the cursor or a merge of the cursor with the nodes it moves to.
+func (m *parserModel) isCursorValue(v ssa.Value) bool {
+	if v == ssa.Value(m.cursorPhi) {
+		return true
+	}
+	phi, ok := v.(*ssa.Phi)
+	return ok && m.isCursorMerge(phi, map[*ssa.Phi]bool{})
 }
 
 func isIterMethod(n string) bool {
@@ -491,11 +553,62 @@ func runTypestate(cfg *tsConfig) []tsViolation {
 				}
 			}
 		}
+		// a block that merges a boolean flag (phi of constants) and branches on it right away: each branch carries only
+		// what arrived over the predecessors that set the flag accordingly (e.g. `found = true; break` … `if found`)
+		flagEdge := [2]int{-1, -1}
+		if iff, ok := b.Instrs[len(b.Instrs)-1].(*ssa.If); ok && trueSt < 0 {
+			cond := iff.Cond
+			neg := false
+			if u, ok := cond.(*ssa.UnOp); ok && u.Op == token.NOT {
+				cond, neg = u.X, true
+			}
+			if phi, ok := cond.(*ssa.Phi); ok && phi.Block() == b && isBoolType(phi.Type()) {
+				plain := true
+				for _, ins := range b.Instrs {
+					switch x := ins.(type) {
+					case *ssa.Phi, *ssa.If, *ssa.DebugRef:
+					case *ssa.UnOp:
+						if x.Op != token.NOT {
+							plain = false
+						}
+					default:
+						plain = false
+					}
+				}
+				allConst := true
+				for _, e := range phi.Edges {
+					if c, ok := e.(*ssa.Const); !ok || c.Value == nil {
+						allConst = false
+					}
+				}
+				if plain && allConst {
+					var tSt, fSt int
+					for i, e := range phi.Edges {
+						cs := contrib[b][b.Preds[i]]
+						if i == 0 && b == fn.Blocks[0] {
+							cs |= cfg.entry
+						}
+						if e.(*ssa.Const).Value.String() == "true" {
+							tSt |= cs
+						} else {
+							fSt |= cs
+						}
+					}
+					if neg {
+						tSt, fSt = fSt, tSt
+					}
+					flagEdge = [2]int{tSt, fSt}
+				}
+			}
+		}
 		for k, s := range b.Succs {
 			if cfg.pruneEdge != nil && cfg.pruneEdge(b, k) {
 				continue
 			}
 			out := st
+			if flagEdge[0] >= 0 && k < 2 {
+				out = flagEdge[k]
+			}
 			if trueSt >= 0 {
 				if k == 0 {
 					out = trueSt
